@@ -52,17 +52,23 @@ def FUEL : Nat := 400
 /-- `owned x` = "x.ownerDocument is the document" (false = None); only elements carry it -/
 structure DState where
   heap : Heap
-  owned : Id → Bool
+  ownedL : List (Id × Bool)              -- ownerDocument assignments, latest first
   top : Id                               -- doc.topnode
   edict : List (Nat × List Id)           -- element_dict: qname ↦ elements, in dict order
   sdict : List (Nat × Id)                -- _styles_dict: name ↦ style element
   fix : List (Nat × Nat)                 -- _styles_ooo_fix: old name ↦ new name
 
+/-- "x.ownerDocument is the document" -/
+def DState.owned (s : DState) (x : Id) : Bool :=
+  match s.ownedL.lookup x with
+  | some b => b
+  | none => false
+
 /-- `ownerDocument` as the property speaks of it -/
 def DState.owner (s : DState) (x : Id) : Option DocId := if s.owned x then some 0 else none
 
 def DState.init : DState :=
-  { heap := Heap.empty, owned := fun _ => false, top := 0, edict := [], sdict := [], fix := [] }
+  { heap := Heap.empty, ownedL := [], top := 0, edict := [], sdict := [], fix := [] }
 
 /-! ### dictionaries as association lists -/
 
@@ -175,7 +181,15 @@ def walk (n : Id) : DM (List Id) := do
 /-! ### _set_owner -/
 
 def setOwned (s : DState) (x : Id) (v : Bool) : DState :=
-  { s with owned := fun y => if y = x then v else s.owned y }
+  { s with ownedL := (x, v) :: s.ownedL }
+
+theorem owned_setOwned (s : DState) (x y : Id) (v : Bool) :
+    (setOwned s x v).owned y = if y = x then v else s.owned y := by
+  simp only [setOwned, DState.owned, List.lookup]
+  by_cases h : y = x
+  · subst h; simp
+  · have : (y == x) = false := by simp [h]
+    simp [this, h]
 
 /-- `_set_owner(n, doc)`: `if node.nodeType == ELEMENT_NODE: node.ownerDocument = doc; for child …` -/
 def setOwnerRec (n : Id) (v : Bool) : DM Unit := do
@@ -317,8 +331,7 @@ def addCDATA (p t : Id) (allowsText : Bool) : DM Unit := do
 
 /-- `OpenDocument.__init__` up to `clear_caches()`: `t` is the (already created) topnode -/
 def mkDoc (t : Id) : DM Unit :=
-  updD fun s => { s with top := t, owned := fun y => if y = t then true else s.owned y,
-                         edict := [], sdict := [], fix := [] }
+  updD fun s => { setOwned s t true with top := t, edict := [], sdict := [], fix := [] }
 
 /-- `doc.getElementsByType(factory)` -/
 def docByType (q : Nat) : DM (List Id) := do
